@@ -563,7 +563,7 @@ func TestVerif_C06(t *testing.T) {
 		}
 		c06Run(w, c06Input{Seed: vSeed()*7919 + int64(i), Ops: ops}, dir)
 	}
-	n := vN(150, 6000)
+	n := vN(120, 2500)
 	for i := 0; i < n; i++ {
 		c06Run(w, c06Input{Seed: vSeed()*1000003 + int64(i), Ops: c06Gen(rng)}, dir)
 	}
